@@ -47,6 +47,23 @@ def sweep(sid: int, length: int, indices: Any) -> dict[str, Any]:
     return {"sid": sid, "len": length, "codes": codes, "records": records, "rejected": nrej}
 
 
+def sweep3(sid: int) -> dict[str, Any]:
+    """All 65 536 three-byte strings of one SID: parse, let TLC validate table + records, keep a summary."""
+    sw = sweep(sid, 3, range(65536))
+    verdicts, lines, results = R.validate("Trace_UdsLayoutResp", [], [sw], jobs=1, workers=4)
+    if len(lines) != 1 or lines[0][3] != "ok" or lines[0][4] != 65536 or lines[0][5] != len(sw["records"]):
+        raise Machinery(f"sweep sid={sid:#x} len=3 not confirmed complete by TLC: {lines}")
+    cnt = {"typed": 0, "raw": 0, "reject": sw["rejected"]}
+    bad = []
+    for j, r in enumerate(sw["records"]):
+        cnt[r["v"]] += 1
+        v = verdicts[sw["first_id"] + j]
+        if v[2]:
+            bad.append((r, v))
+    return {"sid": sid, "classes": cnt, "bad": bad, "accepted": [bytes(r["b"]) for r in sw["records"]],
+            "results": results}
+
+
 def run(tier: str, seed: int) -> Report:
     quiet_gallia_logging()
     rep = Report("C02", tier, seed)
@@ -134,9 +151,11 @@ def run(tier: str, seed: int) -> Report:
     for sid in sids:
         sweeps.append(sweep(sid, 1, range(1)))
         sweeps.append(sweep(sid, 2, range(256)))
+    big: list[Any] = []
     if tier == "thorough":
-        for sid in sids:
-            sweeps.append(sweep(sid, 3, range(65536)))
+        # 65 536 strings per SID: swept and validated SID by SID so that the records need not be kept
+        spool = ThreadPoolExecutor(max_workers=5)
+        big = [spool.submit(sweep3, sid) for sid in sids]
     if tier == "quick":
         for sid in sids:
             for n in rnd.sample(range(65536), 600):
@@ -153,14 +172,28 @@ def run(tier: str, seed: int) -> Report:
         if line is None or line[3] != "ok" or line[4] != 256 ** (sw["len"] - 1) or line[5] != len(sw["records"]):
             raise Machinery(f"sweep sid={sw['sid']:#x} len={sw['len']} not confirmed complete by TLC: {line}")
         swept += line[4]
+    all_recs_extra: list[tuple[dict[str, Any], list[Any]]] = []
     all_recs: list[tuple[dict[str, Any], dict[str, Any], int]] = [(t, m, i) for i, (t, m) in enumerate(zip(traces, meta))]
     for sw in sweeps:
         for j, r in enumerate(sw["records"]):
             all_recs.append((r, {"via": "dyn", "origin": f"sweep-{sw['len']}", "note": ""}, sw["first_id"] + j))
     rep.traces = len(all_recs) + sum(sw["rejected"] for sw in sweeps)
-    rep.evaluations = rep.traces
     classes_cnt = {"typed": 0, "raw": 0, "reject": sum(sw["rejected"] for sw in sweeps)}
     drift = 0
+    for fu in big:
+        b3 = fu.result()
+        swept += 65536
+        rep.traces += 65536
+        for k in classes_cnt:
+            classes_cnt[k] += b3["classes"][k]
+        for res in b3["results"]:
+            rep.add_tlc(res, f"Trace_UdsLayoutResp sweep len 3 sid {b3['sid']:#04x}")
+        for b in b3["accepted"]:
+            rep.nontrivial.add(("dyn", b))
+        rep.extra.setdefault("sweep3_accepted", {})[f"{b3['sid']:#04x}"] = b3["classes"]["typed"] + b3["classes"]["raw"]
+        for r, v in b3["bad"]:
+            all_recs_extra.append((r, v))
+    rep.evaluations = rep.traces
     for t, m, i in all_recs:
         v = verdicts[i]
         classes_cnt[t["v"]] += 1
@@ -177,6 +210,13 @@ def run(tier: str, seed: int) -> Report:
                          "bytes": bytes(t["b"]).hex(), "exposed": t["f"],
                          "reencoded": bytes(t["re"]["b"]).hex() if t["re"]["ok"] else None,
                          "origin": m["origin"], "note": m["note"], "all": v[2]})
+    for t, v in all_recs_extra:
+        for label in v[2]:
+            cls = "Raw" if t["v"] == "raw" else classes[t["kind"]].__name__
+            rep.violate(label, {"kind": cls},
+                        {"via": "parse_dynamic", "bytes": bytes(t["b"]).hex(), "exposed": t["f"],
+                         "reencoded": bytes(t["re"]["b"]).hex() if t["re"]["ok"] else None,
+                         "origin": "sweep-3", "note": "", "all": v[2]})
     rep.exhaustive = True
     rep.extra["exhaustive_space"] = (f"all byte strings of length 1..{3 if tier == 'thorough' else 2} for the "
                                      f"{len(sids)} response SIDs incl. 0x7F through parse_dynamic ({swept} strings, "
